@@ -84,7 +84,7 @@ def discharge(ob, timeout_ms, use_cvc5=True, want_candidate=True):
         old = signal.signal(signal.SIGALRM, _alarm)
         signal.alarm(max(5, int(timeout_ms / 1000 * 3)))
         try:
-            st_, why = sympy_backend.prove(ob.pc, g, timeout_s=timeout_ms / 1000)
+            st_, why = sympy_backend.prove(ob.pc, g, timeout_s=timeout_ms / 1000, hyps=ob.info.get("hyps"))
         except _TO:
             st_, why = "unknown", "sympy timeout"
         except Exception as e:
@@ -95,6 +95,19 @@ def discharge(ob, timeout_ms, use_cvc5=True, want_candidate=True):
         if st_ == "proved":
             return {"status": "proved", "backend": "sympy", "seconds": time.time() - t0}
         sympy_reason = why
+    # cone of influence: first try with only the hypotheses that share symbols (transitively) with the goal.
+    # Using fewer hypotheses is sound; it keeps unrelated nonlinear facts away from the solver.
+    rel = relevant_pc(ob.pc, g)
+    if rel is not None and len(rel) < len(ob.pc):
+        s0 = z3.Solver()
+        s0.set("timeout", min(timeout_ms, 5000))
+        for c in rel:
+            s0.add(c)
+        for c in bytes_axioms():
+            s0.add(c)
+        s0.add(z3.Not(g))
+        if s0.check() == z3.unsat:
+            return {"status": "proved", "backend": "z3", "seconds": time.time() - t0}
     s = z3.Solver()
     s.set("timeout", timeout_ms)
     for c in ob.pc:
@@ -111,7 +124,7 @@ def discharge(ob, timeout_ms, use_cvc5=True, want_candidate=True):
     if r == z3.sat:
         return {"status": "refuted", "backend": "z3", "seconds": dt, "model": s.model()}
     reason = s.reason_unknown()
-    if use_cvc5:
+    if use_cvc5 and ob.info.get("backend") != "sympy":
         r2 = cvc5_check(s, timeout_ms)
         dt = time.time() - t0
         if r2 == "unsat":
@@ -127,9 +140,10 @@ def discharge(ob, timeout_ms, use_cvc5=True, want_candidate=True):
         from pyvc.state import has_quantifier, conjuncts
         s2 = z3.Solver()
         s2.set("timeout", min(timeout_ms, 10000))
-        for c in ob.pc:
+        from pyvc.state import is_heavy
+        for c in (relevant_pc(ob.pc, g) or ob.pc):
             for cc in conjuncts(c):
-                if not has_quantifier(cc):
+                if not is_heavy(cc):
                     s2.add(cc)
         for c in bytes_axioms():
             s2.add(c)
@@ -179,6 +193,63 @@ def skolemize_neg(g):
 def has_q(e):
     from pyvc.state import has_quantifier
     return has_quantifier(e)
+
+
+def _consts(e, cache):
+    i = e.get_id()
+    if i in cache:
+        return cache[i]
+    out = set()
+    stack = [e]
+    seen = set()
+    while stack:
+        x = stack.pop()
+        xi = x.get_id()
+        if xi in seen:
+            continue
+        seen.add(xi)
+        if z3.is_quantifier(x):
+            stack.append(x.body())
+            continue
+        if z3.is_app(x):
+            if x.num_args() == 0 and x.decl().kind() == z3.Z3_OP_UNINTERPRETED:
+                out.add(x.decl().name())
+            elif x.decl().kind() == z3.Z3_OP_UNINTERPRETED:
+                out.add("fn:" + x.decl().name())
+            stack.extend(x.children())
+    cache[i] = out
+    return out
+
+
+def relevant_pc(pc, goal):
+    try:
+        from pyvc.state import conjuncts
+        cache = {}
+        items = []
+        for c in pc:
+            if z3.is_quantifier(c):
+                items.append((c, None))      # quantified facts (axioms) are always kept
+                continue
+            for cc in conjuncts(c):
+                items.append((cc, _consts(cc, cache)))
+        cur = set(_consts(goal, cache))
+        chosen = [False] * len(items)
+        changed = True
+        while changed:
+            changed = False
+            for k, (c, syms) in enumerate(items):
+                if chosen[k]:
+                    continue
+                if syms is None or (syms & cur):
+                    chosen[k] = True
+                    if syms:
+                        new = syms - cur
+                        if new:
+                            cur |= new
+                            changed = True
+        return [c for k, (c, _) in enumerate(items) if chosen[k]]
+    except Exception:
+        return None
 
 
 def cvc5_check(solver, timeout_ms):
